@@ -295,6 +295,7 @@ def run_rt(spec, acc):
         slow_stop[0] = True
         if cfg['slow']:
             acc.count('slow_appclock_tasks', app_tasks[0])
+        acc.count('rt_failing_tasks_next_to_probes', _BOOMS[0])
         threading.Condition.wait = orig_wait
         inj.stop()
         burn.stop()
@@ -307,12 +308,20 @@ def run_rt(spec, acc):
         acc.mark_inconclusive('no physical jitter >= 1 ms observed in an injected run')
 
 
+_BOOMS = [0]
+
+
+def _boom():
+    raise ValueError('vf: a task that fails')
+
+
 def thread_sched_probes(clk, main, rng, tcx):
     """Routines scheduled from this plain thread with sched / sched_abs on
     SystemClock and on TempoClocks whose tempo never changes: the first logical
     time must lie in the interval [call begin, call end] + delta (this thread's
     time is the physical present), the later ones follow the yielded deltas."""
     from sc3.base.stream import Routine
+    from sc3.base.functions import Function
     out = []
     for _ in range(rng.randint(1, 3)):
         how = rng.choice(['SystemClock.sched', 'SystemClock.sched_abs',
@@ -330,6 +339,12 @@ def thread_sched_probes(clk, main, rng, tcx):
                 yield x
                 rec['obs'].append(clock.seconds if sec else clock.beats)
         r = Routine(body)
+        if rng.random() < 0.4:
+            # other tasks of that clock fail around the probe's wake-ups (the clock
+            # logs them and goes on): the probe's logical times are not affected
+            for _ in range(rng.randint(1, 2)):
+                clock.sched(rng.choice([0.0005, 0.002, 0.0035, 0.011]), Function(_boom))
+                _BOOMS[0] += 1
         if clock is clk.SystemClock:
             c0 = main.elapsed_time()
             if how.endswith('abs'):
